@@ -455,6 +455,10 @@ class Interp:
                 extra=self._loop_extras(k))
         for name, f in spec["inv"](st):
             ctx.assume(f)
+        if "facts" in spec:
+            # definitional facts instantiated at the loop-head state (assumed, never checked)
+            for f in spec["facts"](st):
+                ctx.assume(f)
 
     def _loop_extras(self, k):
         ctx = self.ctx
@@ -602,6 +606,9 @@ class Interp:
     def _for_set(self, s, k, spec, S, ex, make_target):
         """loop over a set in arbitrary order with ghost processed-set $proc"""
         ctx = self.ctx
+        if getattr(self.c, "forbid_set_iteration", False):
+            raise Unsupported("L%d: iteration over an unordered set where the contract requires "
+                              "order-independence by construction" % s.lineno)
         ex["$S"] = S
         ex["$proc"] = empty_set(S.ty)
         x = z3.Const(fresh_name("it_x"), S.ty.elem.sort)
@@ -794,6 +801,8 @@ class Interp:
 
     def slice(self, base, b, sl, node):
         ctx = self.ctx
+        if hasattr(b, "slice"):
+            return b.slice(self, sl, node)
         if isinstance(b, VList) and sl.step is None:
             lo = ctx.deref(self.eval(sl.lower)).t if sl.lower is not None else z3.IntVal(0)
             if sl.upper is not None:
@@ -978,6 +987,9 @@ class Interp:
                                              z3.Select(na, j) == z3.Select(a.a, j))))
         ctx.assume(z3.ForAll([j], z3.Implies(z3.And(j >= 0, j < b.n),
                                              z3.Select(na, j + a.n) == z3.Select(b.a, j))))
+        ctx.assume(z3.ForAll([j], z3.Implies(z3.And(j >= a.n, j < a.n + b.n),
+                                             z3.Select(na, j) == z3.Select(b.a, j - a.n)),
+                             patterns=[z3.Select(na, j)]))
         return VList(a.ty, z3.simplify(a.n + b.n), na)
 
     def truth(self, v):
